@@ -39,6 +39,9 @@ package decorator
 
 //@ func decoratorController.callHook(c, parent, observedChildren, related) (resp, err)
 //@   requires validDC(c) && parent != nil
+//@   // the maps sent to the hook hold no nil objects (claimChildren/getChildren and GetRelatedObjects guarantee it)
+//@   requires noNilChildren(observedChildren)
+//@   requires noNilChildren(related)
 //@   writes-assumed fresh
 //@   safety C13
 //@   let finalizing = c.finalizeHook.IsEnabled() && (parent.GetDeletionTimestamp() != nil || !c.parentSelector.Matches(parent))
